@@ -347,7 +347,7 @@ impl Scenario for ArithProg {
                     t.ops.push(Op::new(dst, A_FE_LOAD).arg(rng.below(16)).seed(rng.data_seed()));
                     depth[dst as usize] = 0;
                 }
-                19 => t.ops.push(Op::new(0, A_SC_REDUCE).arg(rng.below(10)).seed(rng.data_seed())),
+                19 => t.ops.push(Op::new(0, A_SC_REDUCE).arg(rng.below(16)).seed(rng.data_seed())),
                 20 => t.ops.push(Op::new(0, A_SC_CANONICAL).arg(rng.below(24)).seed(rng.data_seed())),
                 21 => t.ops.push(Op::new(0, A_SC_MULADD).arg(rng.below(1 << 12)).seed(rng.data_seed())),
                 22 => t.ops.push(Op::new(0, A_GE_BASE).arg(rng.below(12)).seed(rng.data_seed())),
@@ -376,7 +376,7 @@ impl Scenario for ArithProg {
         let mut depth = [0u8; NREG];
         let mut wide_of = |sel: u64, seed: u64| -> [u8; 64] {
             let mut w = [0u8; 64];
-            match sel % 10 {
+            match sel % 16 {
                 0 => {}
                 1 => w[..32].copy_from_slice(&crate::model::big::L),
                 2 => {
@@ -397,8 +397,70 @@ impl Scenario for ArithProg {
                     // boundary family: (a multiple of L) + 2^k - e, also with a random high half
                     let b = crate::model::big::boundary_scalar(seed);
                     w[..32].copy_from_slice(&b);
-                    if sel % 10 == 7 {
+                    if sel % 16 == 7 {
                         w[32..].copy_from_slice(&data((seed >> 3) | 16, 32));
+                    }
+                }
+                10 => {
+                    // sparse: a low half below 2^252 (or from the boundary family) and ONE non-zero byte in the high half
+                    if seed & 1 == 0 {
+                        w[..32].copy_from_slice(&data((seed >> 9) | 16, 32));
+                        w[31] &= 0x0f;
+                    } else {
+                        w[..32].copy_from_slice(&crate::model::big::boundary_scalar(seed >> 9));
+                    }
+                    let pos = 32 + ((seed >> 1) % 32) as usize;
+                    w[pos] = 1 + ((seed >> 6) % 255) as u8;
+                }
+                11 => {
+                    // 2^k - e for every k < 512
+                    let k = (seed % 512) as usize;
+                    let e = ((seed >> 9) % 3) as usize;
+                    w[k / 8] = 1 << (k % 8);
+                    for _ in 0..e {
+                        let mut i = 0;
+                        while i < 64 {
+                            let (v, b) = w[i].overflowing_sub(1);
+                            w[i] = v;
+                            if !b {
+                                break;
+                            }
+                            i += 1;
+                        }
+                    }
+                }
+                12 => {
+                    // 1..=4 non-zero bytes anywhere
+                    let n = 1 + (seed % 4) as usize;
+                    let d = data((seed >> 2) | 16, 8);
+                    for j in 0..n {
+                        w[(d[j] % 64) as usize] = d[4 + j] | 1;
+                    }
+                }
+                13 => {
+                    // random low half, high half zero except its lowest or highest byte
+                    w[..32].copy_from_slice(&data((seed >> 2) | 16, 32));
+                    if seed & 1 == 0 {
+                        w[32] = 1 + ((seed >> 9) % 255) as u8;
+                    } else {
+                        w[63] = 1 + ((seed >> 9) % 255) as u8;
+                    }
+                }
+                14 => {
+                    // a run of 0xff bytes [a, b), everything else zero
+                    let a = (seed % 64) as usize;
+                    let b = a + 1 + ((seed >> 6) % (64 - a as u64)) as usize;
+                    for x in w[a..b].iter_mut() {
+                        *x = 0xff;
+                    }
+                }
+                15 => {
+                    // random value with a run of zero bytes [a, b)
+                    w.copy_from_slice(&data((seed >> 12) | 16, 64));
+                    let a = (seed % 64) as usize;
+                    let b = a + 1 + ((seed >> 6) % (64 - a as u64)) as usize;
+                    for x in w[a..b].iter_mut() {
+                        *x = 0;
                     }
                 }
                 _ => w.copy_from_slice(&data(seed | 16, 64)),
